@@ -1,6 +1,11 @@
 package main
 
-import "fmt"
+import (
+	"fmt"
+	"os"
+
+	"golang.org/x/tools/go/ssa"
+)
 
 var dumpers = map[string]func(c *Ctx){}
 
@@ -36,5 +41,56 @@ func init() {
 		for _, k := range ih.Contradictions() {
 			fmt.Printf("CONTRADICTION %s in %s at %s: %s\n", k.Base, ssaFuncName(k.Site.Fn), c.Pos(instrPos(k.Site.At)), k.Why)
 		}
+	}
+}
+
+func init() {
+	dumpers["tokrel"] = func(c *Ctx) {
+		tr := c.TokRel()
+		names := c.tokenTypeNames()
+		for tn, s := range tr.Tokens {
+			if s.top {
+				fmt.Printf("%-28s TOP\n", tn)
+				continue
+			}
+			var ks []string
+			for k := range s.s {
+				ks = append(ks, names[k])
+			}
+			fmt.Printf("%-28s %v\n", tn, ks)
+		}
+	}
+}
+
+func init() {
+	dumpers["whycalls"] = func(c *Ctx) {
+		reach := c.programReach()
+		target := os.Getenv("WHY")
+		for fn := range reach {
+			node := c.CG().g.Nodes[fn]
+			if node == nil {
+				continue
+			}
+			for _, e := range node.Out {
+				if ssaFuncName(e.Callee.Func) == target {
+					fmt.Printf("%s -> %s at %s (%s)\n", ssaFuncName(fn), target, c.Pos(e.Pos()), e.Description())
+				}
+			}
+		}
+	}
+}
+
+func init() {
+	dumpers["tags"] = func(c *Ctx) {
+		fn := c.SSAFn(c.Fn("eval", "State.evalIndexExpressionIdx"))
+		eachInstr(fn, func(in ssa.Instruction) {
+			if ta, ok := in.(*ssa.TypeAssert); ok {
+				tags, known := c.tagsAt(ta.X, ta.Block())
+				fmt.Println(ta, ta.Block().Index, tags, known, len(c.typeCallsOn(ta.X)))
+				for _, cc := range controlling(ta.Block()) {
+					fmt.Println("  ctrl", cc.Cond, cc.Edge)
+				}
+			}
+		})
 	}
 }
